@@ -363,6 +363,19 @@ impl<'tcx> Cx<'tcx> {
         let tcx = self.tcx;
         let owner = did.to_def_id();
         let body: &Body<'tcx> = tcx.optimized_mir(owner);
+        let mut j = self.body_of(owner, body);
+        let proms = tcx.promoted_mir(owner);
+        if !proms.is_empty() {
+            let pj: Vec<J> = proms.iter().map(|pb| self.body_of(owner, pb)).collect();
+            if let J::O(ref mut v) = j {
+                v.push(("promoted", J::A(pj)));
+            }
+        }
+        j
+    }
+
+    fn body_of(&self, owner: DefId, body: &Body<'tcx>) -> J {
+        let tcx = self.tcx;
         let mut locals = Vec::new();
         for (l, decl) in body.local_decls.iter_enumerated() {
             let _ = l;
